@@ -1,6 +1,7 @@
 // Player for C07 (zero heap allocation on the documented fast paths). Two builds of the same program:
 //   - plain (default and -tags binary_log): testing.AllocsPerRun on every chain (the trusted instrument)
 //   - -tags poolshim with the go -overlay shim pool: pool Get/Put counts per chain (pool balance)
+//
 // Chains come from TLC (spec/logger/AllocChain.tla); arguments are preallocated, as the benchmarks do.
 package main
 
@@ -22,78 +23,85 @@ type obj struct{ n int }
 
 func (o *obj) MarshalZerologObject(e *zerolog.Event) { e.Str("name", "x").Int("n", o.n) }
 
+type arrPtr struct{ n int }
+
+func (a *arrPtr) MarshalZerologArray(arr *zerolog.Array) { arr.Int(a.n).Str("x") }
+
 var (
-	aStrs   = []string{"a", "b"}
-	aBytes  = []byte("bytes")
-	aBools  = []bool{true, false}
-	aInts   = []int{1, -2}
-	aInts8  = []int8{1, -2}
-	aInts16 = []int16{1, -2}
-	aInts32 = []int32{1, -2}
-	aInts64 = []int64{1, -2}
-	aUints  = []uint{1, 2}
-	aU8     = []uint8{1, 2}
-	aU16    = []uint16{1, 2}
-	aU32    = []uint32{1, 2}
-	aU64    = []uint64{1, 1 << 63}
-	aF32    = []float32{1.5, 2}
-	aF64    = []float64{1.5, 1e21}
-	aTime   = time.Date(2020, 1, 2, 3, 4, 5, 6, time.UTC)
-	aTime2  = aTime.Add(-time.Second)
-	aTimes  = []time.Time{aTime, aTime2}
-	aDurs   = []time.Duration{time.Second, time.Millisecond}
-	aErr    = errors.New("plain")
-	aObj    = &obj{7}
-	aRaw    = []byte(`{"r":1}`)
+	aArrM               = &arrPtr{3}
+	aStrs               = []string{"a", "b"}
+	aBytes              = []byte("bytes")
+	aBools              = []bool{true, false}
+	aInts               = []int{1, -2}
+	aInts8              = []int8{1, -2}
+	aInts16             = []int16{1, -2}
+	aInts32             = []int32{1, -2}
+	aInts64             = []int64{1, -2}
+	aUints              = []uint{1, 2}
+	aU8                 = []uint8{1, 2}
+	aU16                = []uint16{1, 2}
+	aU32                = []uint32{1, 2}
+	aU64                = []uint64{1, 1 << 63}
+	aF32                = []float32{1.5, 2}
+	aF64                = []float64{1.5, 1e21}
+	aTime               = time.Date(2020, 1, 2, 3, 4, 5, 6, time.UTC)
+	aTime2              = aTime.Add(-time.Second)
+	aTimes              = []time.Time{aTime, aTime2}
+	aDurs               = []time.Duration{time.Second, time.Millisecond}
+	aErr                = errors.New("plain")
+	aObj                = &obj{7}
+	aRaw                = []byte(`{"r":1}`)
 	aType   interface{} = aObj
-	aFunc   = func(e *zerolog.Event) { e.Int("f", 1) }
+	aFunc               = func(e *zerolog.Event) { e.Int("f", 1) }
 )
 
 var methods = map[string]func(e *zerolog.Event) *zerolog.Event{
-	"Str":       func(e *zerolog.Event) *zerolog.Event { return e.Str("s", "value") },
-	"Strs":      func(e *zerolog.Event) *zerolog.Event { return e.Strs("ss", aStrs) },
-	"Bytes":     func(e *zerolog.Event) *zerolog.Event { return e.Bytes("b", aBytes) },
-	"Hex":       func(e *zerolog.Event) *zerolog.Event { return e.Hex("h", aBytes) },
-	"Bool":      func(e *zerolog.Event) *zerolog.Event { return e.Bool("bo", true) },
-	"Bools":     func(e *zerolog.Event) *zerolog.Event { return e.Bools("bs", aBools) },
-	"Int":       func(e *zerolog.Event) *zerolog.Event { return e.Int("i", -5) },
-	"Ints":      func(e *zerolog.Event) *zerolog.Event { return e.Ints("is", aInts) },
-	"Int8":      func(e *zerolog.Event) *zerolog.Event { return e.Int8("i8", -5) },
-	"Ints8":     func(e *zerolog.Event) *zerolog.Event { return e.Ints8("is8", aInts8) },
-	"Int16":     func(e *zerolog.Event) *zerolog.Event { return e.Int16("i16", -5) },
-	"Ints16":    func(e *zerolog.Event) *zerolog.Event { return e.Ints16("is16", aInts16) },
-	"Int32":     func(e *zerolog.Event) *zerolog.Event { return e.Int32("i32", -5) },
-	"Ints32":    func(e *zerolog.Event) *zerolog.Event { return e.Ints32("is32", aInts32) },
-	"Int64":     func(e *zerolog.Event) *zerolog.Event { return e.Int64("i64", -5) },
-	"Ints64":    func(e *zerolog.Event) *zerolog.Event { return e.Ints64("is64", aInts64) },
-	"Uint":      func(e *zerolog.Event) *zerolog.Event { return e.Uint("u", 5) },
-	"Uints":     func(e *zerolog.Event) *zerolog.Event { return e.Uints("us", aUints) },
-	"Uint8":     func(e *zerolog.Event) *zerolog.Event { return e.Uint8("u8", 5) },
-	"Uints8":    func(e *zerolog.Event) *zerolog.Event { return e.Uints8("us8", aU8) },
-	"Uint16":    func(e *zerolog.Event) *zerolog.Event { return e.Uint16("u16", 5) },
-	"Uints16":   func(e *zerolog.Event) *zerolog.Event { return e.Uints16("us16", aU16) },
-	"Uint32":    func(e *zerolog.Event) *zerolog.Event { return e.Uint32("u32", 5) },
-	"Uints32":   func(e *zerolog.Event) *zerolog.Event { return e.Uints32("us32", aU32) },
-	"Uint64":    func(e *zerolog.Event) *zerolog.Event { return e.Uint64("u64", 1<<63) },
-	"Uints64":   func(e *zerolog.Event) *zerolog.Event { return e.Uints64("us64", aU64) },
-	"Float32":   func(e *zerolog.Event) *zerolog.Event { return e.Float32("f32", 1.5) },
-	"Floats32":  func(e *zerolog.Event) *zerolog.Event { return e.Floats32("fs32", aF32) },
-	"Float64":   func(e *zerolog.Event) *zerolog.Event { return e.Float64("f64", 1e21) },
-	"Floats64":  func(e *zerolog.Event) *zerolog.Event { return e.Floats64("fs64", aF64) },
-	"Time":      func(e *zerolog.Event) *zerolog.Event { return e.Time("t", aTime) },
-	"Times":     func(e *zerolog.Event) *zerolog.Event { return e.Times("ts", aTimes) },
-	"Dur":       func(e *zerolog.Event) *zerolog.Event { return e.Dur("d", time.Second) },
-	"Durs":      func(e *zerolog.Event) *zerolog.Event { return e.Durs("ds", aDurs) },
-	"TimeDiff":  func(e *zerolog.Event) *zerolog.Event { return e.TimeDiff("td", aTime, aTime2) },
-	"Timestamp": func(e *zerolog.Event) *zerolog.Event { return e.Timestamp() },
-	"Err":       func(e *zerolog.Event) *zerolog.Event { return e.Err(aErr) },
-	"AnErr":     func(e *zerolog.Event) *zerolog.Event { return e.AnErr("ae", aErr) },
-	"Dict":      func(e *zerolog.Event) *zerolog.Event { return e.Dict("dict", zerolog.Dict().Str("a", "b").Int("n", 1)) },
-	"Array":     func(e *zerolog.Event) *zerolog.Event { return e.Array("arr", zerolog.Arr().Int(1).Str("x")) },
-	"Object":    func(e *zerolog.Event) *zerolog.Event { return e.Object("obj", aObj) },
-	"RawJSON":   func(e *zerolog.Event) *zerolog.Event { return e.RawJSON("raw", aRaw) },
-	"Type":      func(e *zerolog.Event) *zerolog.Event { return e.Type("ty", aType) },
-	"Func":      func(e *zerolog.Event) *zerolog.Event { return e.Func(aFunc) },
+	"Str":         func(e *zerolog.Event) *zerolog.Event { return e.Str("s", "value") },
+	"Strs":        func(e *zerolog.Event) *zerolog.Event { return e.Strs("ss", aStrs) },
+	"Bytes":       func(e *zerolog.Event) *zerolog.Event { return e.Bytes("b", aBytes) },
+	"Hex":         func(e *zerolog.Event) *zerolog.Event { return e.Hex("h", aBytes) },
+	"Bool":        func(e *zerolog.Event) *zerolog.Event { return e.Bool("bo", true) },
+	"Bools":       func(e *zerolog.Event) *zerolog.Event { return e.Bools("bs", aBools) },
+	"Int":         func(e *zerolog.Event) *zerolog.Event { return e.Int("i", -5) },
+	"Ints":        func(e *zerolog.Event) *zerolog.Event { return e.Ints("is", aInts) },
+	"Int8":        func(e *zerolog.Event) *zerolog.Event { return e.Int8("i8", -5) },
+	"Ints8":       func(e *zerolog.Event) *zerolog.Event { return e.Ints8("is8", aInts8) },
+	"Int16":       func(e *zerolog.Event) *zerolog.Event { return e.Int16("i16", -5) },
+	"Ints16":      func(e *zerolog.Event) *zerolog.Event { return e.Ints16("is16", aInts16) },
+	"Int32":       func(e *zerolog.Event) *zerolog.Event { return e.Int32("i32", -5) },
+	"Ints32":      func(e *zerolog.Event) *zerolog.Event { return e.Ints32("is32", aInts32) },
+	"Int64":       func(e *zerolog.Event) *zerolog.Event { return e.Int64("i64", -5) },
+	"Ints64":      func(e *zerolog.Event) *zerolog.Event { return e.Ints64("is64", aInts64) },
+	"Uint":        func(e *zerolog.Event) *zerolog.Event { return e.Uint("u", 5) },
+	"Uints":       func(e *zerolog.Event) *zerolog.Event { return e.Uints("us", aUints) },
+	"Uint8":       func(e *zerolog.Event) *zerolog.Event { return e.Uint8("u8", 5) },
+	"Uints8":      func(e *zerolog.Event) *zerolog.Event { return e.Uints8("us8", aU8) },
+	"Uint16":      func(e *zerolog.Event) *zerolog.Event { return e.Uint16("u16", 5) },
+	"Uints16":     func(e *zerolog.Event) *zerolog.Event { return e.Uints16("us16", aU16) },
+	"Uint32":      func(e *zerolog.Event) *zerolog.Event { return e.Uint32("u32", 5) },
+	"Uints32":     func(e *zerolog.Event) *zerolog.Event { return e.Uints32("us32", aU32) },
+	"Uint64":      func(e *zerolog.Event) *zerolog.Event { return e.Uint64("u64", 1<<63) },
+	"Uints64":     func(e *zerolog.Event) *zerolog.Event { return e.Uints64("us64", aU64) },
+	"Float32":     func(e *zerolog.Event) *zerolog.Event { return e.Float32("f32", 1.5) },
+	"Floats32":    func(e *zerolog.Event) *zerolog.Event { return e.Floats32("fs32", aF32) },
+	"Float64":     func(e *zerolog.Event) *zerolog.Event { return e.Float64("f64", 1e21) },
+	"Floats64":    func(e *zerolog.Event) *zerolog.Event { return e.Floats64("fs64", aF64) },
+	"Time":        func(e *zerolog.Event) *zerolog.Event { return e.Time("t", aTime) },
+	"Times":       func(e *zerolog.Event) *zerolog.Event { return e.Times("ts", aTimes) },
+	"Dur":         func(e *zerolog.Event) *zerolog.Event { return e.Dur("d", time.Second) },
+	"Durs":        func(e *zerolog.Event) *zerolog.Event { return e.Durs("ds", aDurs) },
+	"TimeDiff":    func(e *zerolog.Event) *zerolog.Event { return e.TimeDiff("td", aTime, aTime2) },
+	"Timestamp":   func(e *zerolog.Event) *zerolog.Event { return e.Timestamp() },
+	"Err":         func(e *zerolog.Event) *zerolog.Event { return e.Err(aErr) },
+	"AnErr":       func(e *zerolog.Event) *zerolog.Event { return e.AnErr("ae", aErr) },
+	"Dict":        func(e *zerolog.Event) *zerolog.Event { return e.Dict("dict", zerolog.Dict().Str("a", "b").Int("n", 1)) },
+	"Array":       func(e *zerolog.Event) *zerolog.Event { return e.Array("arr", zerolog.Arr().Int(1).Str("x")) },
+	"Object":      func(e *zerolog.Event) *zerolog.Event { return e.Object("obj", aObj) },
+	"ArrayM":      func(e *zerolog.Event) *zerolog.Event { return e.Array("arrm", aArrM) },
+	"EmbedObject": func(e *zerolog.Event) *zerolog.Event { return e.EmbedObject(aObj) },
+	"RawJSON":     func(e *zerolog.Event) *zerolog.Event { return e.RawJSON("raw", aRaw) },
+	"Type":        func(e *zerolog.Event) *zerolog.Event { return e.Type("ty", aType) },
+	"Func":        func(e *zerolog.Event) *zerolog.Event { return e.Func(aFunc) },
 }
 
 type Chain struct {
